@@ -335,6 +335,12 @@ func run(s Script, v *vt.V) {
 				if !bad || st.Bad >= 2 {
 					decl.Digest, bad = wrongD, true
 				}
+				if st.Bad == 4 {
+					// the digest of something else, under another algorithm than the registry's own
+					decl.Digest = digest.SHA512.FromBytes(append([]byte("other:"), data...))
+				} else if st.Bad == 3 {
+					decl.Digest = digest.SHA384.FromBytes(append([]byte("other:"), data...))
+				}
 				u := built.Servers[len(built.Servers)-1].URL + "/v2/" + repo + "/manifests/" + string(decl.Digest)
 				req, _ := http.NewRequest("PUT", u, bytes.NewReader(data))
 				req.Header.Set("Content-Type", mtOpaque)
